@@ -281,7 +281,7 @@ def mutate(draw, toks, vocab=None):
     toks = list(toks)
     n = len(toks)
     kind = draw(st.sampled_from(["delete", "insert", "replace", "swap", "dup", "bracket",
-                                 "unit", "unit", "truncate"]))
+                                 "unit", "unit", "truncate", "retype", "retype"]))
     if n == 0:
         kind = "insert"
     if kind == "delete":
@@ -310,6 +310,28 @@ def mutate(draw, toks, vocab=None):
     elif kind == "unit":
         i = draw(st.integers(0, n))
         toks[i:i] = draw(st.sampled_from(UNITS))
+    elif kind == "retype":
+        # change the type of one argument: string <-> list <-> number, tag <-> string
+        idx = [i for i, t in enumerate(toks) if t[:1] in (b'"', b":") or t[:1].isdigit() or t.startswith(b"text:")]
+        if not idx:
+            return ("noop", toks)
+        i = draw(st.sampled_from(idx))
+        t = toks[i]
+        if t[:1] == b'"' or t.startswith(b"text:"):
+            inlist = i > 0 and toks[i - 1] in (b"[", b",")
+            how = draw(st.sampled_from(["wrap", "wrap", "number", "tag"] if not inlist else ["number", "tag", "nested"]))
+            if how == "wrap":
+                toks[i:i + 1] = [b"[", t, b"]"]
+            elif how == "nested":
+                toks[i:i + 1] = [b"[", t, b"]"]
+            elif how == "number":
+                toks[i] = b"7"
+            else:
+                toks[i] = b":is"
+        elif t[:1] == b":":
+            toks[i] = draw(st.sampled_from([b'"tag"', b"3", b":contains", b":over", b":copy", b":flags", b":zone"]))
+        else:
+            toks[i] = draw(st.sampled_from([b'"5"', b"[", b":over"]))
     elif kind == "truncate":
         i = draw(st.integers(0, n - 1))
         toks = toks[:i]
